@@ -74,6 +74,9 @@ structure Cfg where
   flags : Flags
   /-- what the k-th upstream subscription plays synchronously inside `Subscribe` -/
   pre : Nat → List Ev
+  /-- `true`: the tree with repo_fixes/C11-share-local-sourceSubscription.patch applied
+      (operator_connectable.go:160 uses the local `currentSourceSubscription`); `false`: the pinned tree -/
+  fixed : Bool := false
 
 inductive Status
   | open
@@ -373,20 +376,25 @@ def r1 (cfg : Cfg) (s : St) : St :=
              subject := some s.ngens, sourceSubscription := some s.ngens }
   else { s with refCount := s.refCount + 1 }
 
-/-- `sourceSubscription.AddUnsubscribable(…)` (operator_connectable.go:160): the *shared variable*
-    is read again, without `mu`. `none` = nil dereference, recovered by observable.go:313-317:
-    `Error(observableError)` then `Unsubscribe`; Share's teardown is never registered, so the
-    reference count is not given back. -/
-def r3tail (fl : Flags) (i g : Nat) (s : St) : St :=
-  match s.sourceSubscription with
-  | none => dUnsubscribe fl i (dTerm fl i (.error .nilDeref) { s with panics := s.panics + 1 })
-  | some g' =>
-    addTeardown fl i g
-      (if (s.gens g').ssDone then pUnsubscribe g s else s.modGen g' fun x => { x with ssFins := x.ssFins ++ [g] })
+/-- `X.AddUnsubscribable(proxy)` on the `sourceSubscription` object of generation `g'`
+    (subscription.go:78-100: runs the finalizer at once when already done) -/
+def ssAdd (g' g : Nat) (s : St) : St :=
+  if (s.gens g').ssDone then pUnsubscribe g s else s.modGen g' fun x => { x with ssFins := x.ssFins ++ [g] }
+
+/-- `sourceSubscription.AddUnsubscribable(…)` (operator_connectable.go:160): on the pinned tree the
+    *shared variable* is read again, without `mu`. `none` = nil dereference, recovered by
+    observable.go:313-317: `Error(observableError)` then `Unsubscribe`; Share's teardown is never
+    registered, so the reference count is not given back. On the repaired tree (`fixed`) the local
+    `currentSourceSubscription` (generation `g`, never nil) is used. -/
+def r3tail (fixed : Bool) (fl : Flags) (i g : Nat) (s : St) : St :=
+  if fixed then addTeardown fl i g (ssAdd g g s)
+  else match s.sourceSubscription with
+    | none => dUnsubscribe fl i (dTerm fl i (.error .nilDeref) { s with panics := s.panics + 1 })
+    | some g' => addTeardown fl i g (ssAdd g' g s)
 
 /-- region R3 for the subscriber that created the generation (operator_connectable.go:125-163) -/
 def r3 (cfg : Cfg) (i g : Nat) (s : St) : St :=
-  r3tail cfg.flags i g (srcSubscribe cfg g { s with flagE := false, flagC := false })
+  r3tail cfg.fixed cfg.flags i g (srcSubscribe cfg g { s with flagE := false, flagC := false })
 
 /-- `observableImpl.SubscribeWithContext` of the shared observable + the subscribe function of
     `ShareWithConfig` (operator_connectable.go:111-179): R1, R2 (subscribe to the subject), R3 -/
